@@ -15,12 +15,12 @@ UNIT = dict(
     deps='vstd = { path = "/verif/models/vstd" }',
     encoded={F: ["fn is_close_together", "fn is_overlapping",
                  "FileScheduler::submit_request: merge loop, split loop (planning) and the reassembly loop of its async block"]},
-    models=["Vec -> vstd fixed-capacity vector",
-            "bytes::Bytes -> BytesLite: a buffer is a list of (file offset, length) runs of an abstract file, adjacent runs fused; slice/len/extend_from_slice/From<Vec<u8>> on runs",
+    models=["Vec -> vstd::cvec fixed-capacity contiguous vector",
+            "bytes::Bytes -> a buffer is the contiguous range (offset,len) of an abstract file it holds, or a sticky `bad` mark once non-adjacent bytes were glued together; slice/len/extend_from_slice/From<Vec<u8>> defined on that",
             "self.root.submit_request(..).await (the actual reads, I/O queue) -> fetch(): one buffer per planned range holding exactly that file range",
             "self.root.stats.record_request -> dropped (statistics only)"],
     bounds={"requests": "k <= 2 (quick) / 3 (thorough) requested ranges, sorted by start (documented caller contract), start <= end, empty ranges included",
-            "offsets": "< 2^16 (quick) / 2^40 (thorough); block_size arbitrary below the same limit; max_iop_size >= 1",
+            "offsets": "< 2^8 (quick) / 2^16 and 2^32 (thorough); block_size arbitrary below the same limit; max_iop_size >= 1",
             "planned ranges": "<= 4 (quick) / 16 (thorough) (vector model capacity; more is a model bound)"},
     outside=["priority arithmetic", "the I/O queue, back-pressure, completion order, cancellation (concurrency; not encodable)", "unsorted request lists"],
 )
@@ -53,7 +53,7 @@ def build(repo, subs):
     reassembly = subs.lit(reassembly, "let mut merged_bytes = Vec::with_capacity(orig_size as usize);",
                           "let mut merged_bytes = crate::env::RunBuf::with_capacity(orig_size as usize);", why="Vec<u8> copy buffer -> run list")
     body = f"""use std::ops::Range;
-use vstd::vec::Vec;
+use vstd::cvec::Vec;
 use crate::env::{{fetch, Bytes}};
 
 {close}
